@@ -24,7 +24,7 @@ pub fn check(tier: Tier) -> Check {
         also_rel: true,
         property: "C04",
         level: "fault_enumeration",
-        rule: "phases {connect(), authorize(), run() idle, run() with one operation of every kind outstanding and a live stream} x inputs {(1) all byte strings up to the stated length over an 18-symbol boundary alphabet (0x00 0x01 0x02 0x03 0x7f 0x80 0xff and one fixed-header byte per server packet type), optionally followed by end-of-stream; all 65536 two-byte prefixes x three tails; (2) for a valid exemplar of every server packet type carrying every property: every truncation, every single-bit flip, every byte replaced by 0x00/0x01/0x7f/0x80/0xff, remaining length set to 0 / +-1 / maximum / over-long / non-minimal, every property spliced into every packet type, every reason byte 0..=255; (3) every packet type at every phase (well-formed, for known and unknown identifiers); (4) end-of-stream and read error at every byte offset in whole-packet and 1-byte chunking, write error at every write; (5) a long PUBLISH trickled in always-ready 1-byte reads in a child process}; both the overflow-checked and the wrapping-arithmetic build; non-trivial = the input made a call return an error".into(),
+        rule: "phases {connect(), authorize(), run() idle, run() with one operation of every kind outstanding and a live stream} x inputs {(1) all byte strings up to the stated length over an 18-symbol boundary alphabet (0x00 0x01 0x02 0x03 0x7f 0x80 0xff and one fixed-header byte per server packet type), optionally followed by end-of-stream (strings whose length field announces more than 4 MiB, which the client allocates and zeroes, are delivered by the other input classes instead); all 65536 two-byte prefixes x three tails; (2) for a valid exemplar of every server packet type carrying every property: every truncation, every single-bit flip, every byte replaced by 0x00/0x01/0x7f/0x80/0xff, remaining length set to 0 / +-1 / maximum / over-long / non-minimal, every property spliced into every packet type, every reason byte 0..=255; (3) every packet type at every phase (well-formed, for known and unknown identifiers); (4) end-of-stream and read error at every byte offset in whole-packet and 1-byte chunking, write error at every write; (5) a long PUBLISH trickled in always-ready 1-byte reads in a child process}; both the overflow-checked and the wrapping-arithmetic build; non-trivial = the input made a call return an error".into(),
         assumptions: vec![
             "the documented assertion on brokers without subscription identifier support is exempt".into(),
             "which error is returned is unconstrained".into(),
@@ -378,6 +378,14 @@ pub fn scenario(name: &str, params: &Value) -> Scenario {
                     bytes.push(ALPHABET[chz.choose(ALPHABET.len())]);
                 }
                 let tail = chz.choose(2);
+                // a five-byte string can announce up to 256 MiB, which the client allocates and
+                // zeroes; those inputs (4 x 18 x 8 x 9 x 2 of 16 million) are left to C04/prefix2 and
+                // C04/mutations, which deliver the same length fields, so that this part completes
+                if let Ok(Some(n)) = frame_len(&bytes) {
+                    if n > (4 << 20) {
+                        return;
+                    }
+                }
                 let mut sys = Sys::new("C04", &name, chz);
                 sys.params = params.clone();
                 enter_phase(&mut sys, ph);
